@@ -680,20 +680,62 @@ func ordOverload(w *World, r *EngineResult) {
 				if !ok || fieldNameOf(fa) != "Overloads" {
 					continue
 				}
-				n++
-				// the object whose Overloads is extended comes from a lookup call
-				root := fa.X
-				call, ok := root.(*ssa.Call)
+				// the object whose Overloads is extended comes from a lookup call — in this
+				// function, or (when the append lives in a helper) in each static caller that
+				// hands the entry in; the obligation belongs to the function that looks up
+				type site struct {
+					fn   *ssa.Function
+					call *ssa.Call
+					pos  string
+				}
+				var sites []site
+				unresolved := false
+				var resolve func(f *ssa.Function, v ssa.Value, at ssa.Instruction, depth int)
+				resolve = func(f *ssa.Function, v ssa.Value, at ssa.Instruction, depth int) {
+					switch x := v.(type) {
+					case *ssa.Call:
+						if x.Call.StaticCallee() != nil {
+							sites = append(sites, site{f, x, w.pos(instrPos(at))})
+							return
+						}
+					case *ssa.Parameter:
+						if depth < 2 {
+							pi := -1
+							for i, p := range f.Params {
+								if p == x {
+									pi = i
+								}
+							}
+							found := false
+							if nd := cg.Nodes[f]; nd != nil && pi >= 0 {
+								for _, e := range nd.In {
+									if e.Site != nil && e.Site.Common().StaticCallee() == f {
+										found = true
+										resolve(e.Caller.Func, e.Site.Common().Args[pi], e.Site.(ssa.Instruction), depth+1)
+									}
+								}
+							}
+							if found {
+								return
+							}
+						}
+					}
+					unresolved = true
+				}
+				resolve(fn, fa.X, st, 0)
 				construct := "method-exists test"
-				pos := w.pos(instrPos(st))
-				if !ok || call.Call.StaticCallee() == nil {
-					r.undecided("ORD-overload", fnKey(fn), construct, "the extended method entry is not the result of a lookup call", pos)
+				if unresolved || len(sites) == 0 {
+					n++
+					r.undecided("ORD-overload", fnKey(fn), construct, "the extended method entry is not the result of a lookup call (here or in a static caller)", w.pos(instrPos(st)))
 					continue
 				}
-				if yes, via := reaches(call.Call.StaticCallee()); yes {
-					r.violated("ORD-overload", fnKey(fn), construct, "the loader decides 'this method already exists, add an overload' with "+call.Call.StaticCallee().Name()+", which walks the inheritance table ("+via+"): the answer depends on which extends edges earlier files created, i.e. on file names and on how declarations are split", pos)
-				} else {
-					r.holds("ORD-overload", fnKey(fn), construct, "the existence test is an exact-key lookup", pos)
+				for _, s := range sites {
+					n++
+					if yes, via := reaches(s.call.Call.StaticCallee()); yes {
+						r.violated("ORD-overload", fnKey(s.fn), construct, "the loader decides 'this method already exists, add an overload' with "+s.call.Call.StaticCallee().Name()+", which walks the inheritance table ("+via+"): the answer depends on which extends edges earlier files created, i.e. on file names and on how declarations are split", s.pos)
+					} else {
+						r.holds("ORD-overload", fnKey(s.fn), construct, "the existence test is an exact-key lookup", s.pos)
+					}
 				}
 			}
 		}
